@@ -6,12 +6,12 @@ Line-protocol driver for the on-chain spend check (property C08).
 
   node <limit_msat> <h|d|u>
       new node: fee velocity control from the policy spec            → `ok <vc digest>`
-  tx <maxFeerate> <dev 0|1> <flt 10×0/1> <now> <version> <baseSize> <txWeight> <nInputs>
+  tx <viaApprover 0|1> <maxFeerate> <dev 0|1> <flt 10×0/1> <now> <version> <baseSize> <txWeight> <nInputs>
      <segwit 0/1-string|-> <inValues a,b,..|-> <ucks e,e,..|-> <nOpaths> <outs o;o;..|->
       uck entry:  P (index ≥ prev_outs.len) | I (invalid spend type) | N (None) | S<len>
       out:        value:pathLen:cs:sa:xp:chan   cs ∈ t|f|e   sa ∈ 0|1   xp ∈ y|n|p
                   chan = - | value/scriptMatch/outbound/pushMsat/nextHolderCommit
-      → `ok <non_beneficial> | <vc>` · `unknown [i,..] | <vc>` · `err:<tag> | <vc>` · `panic`
+      → `ok | <vc>` · `unknown [i,..] | <vc>` · `err:<tag> | <vc>` · `panic`
   After a panic the node is considered dead (poisoned locks): every further line answers `dead`.
 -/
 namespace VlsModel.Drv.Onchain
@@ -73,10 +73,12 @@ def out? (s : String) : Option Out :=
 def segwit? (s : String) : Option (List Bool) :=
   if s == "-" then some [] else mapM? (fun c => if c == '1' then some true else if c == '0' then some false else none) s.toList
 
-def resStr : Res → String
-  | .ok nb => s!"ok {nb}"
+/-- `viaApprover`: the request went through `Approve::handle_proposed_onchain`, which turns the
+    validation error into a `Status` without the tag -/
+def resStr (viaApprover : Bool) : Res → String
+  | .ok _ => "ok"
   | .unknown l => s!"unknown {natList l}"
-  | .err t => s!"err:{t.name}"
+  | .err t => if viaApprover then "err:*" else s!"err:{t.name}"
   | .panic => "panic"
 
 def step (s : St) (toks : List String) : St × String :=
@@ -86,7 +88,10 @@ def step (s : St) (toks : List String) : St × String :=
     match nat? l, Velocity.itype? t with
     | some l, some t => let v := Velocity.VC.ofSpec ⟨l, t⟩; ({ vc := v, dead := false }, "ok " ++ vcDigest v)
     | _, _ => (s, "bad-op")
-  | ["tx", mf, dev, flt, now, ver, bs, w, nin, sw, iv, uck, nop, outs] =>
+  | ["tx", ap, mf, dev, flt, now, ver, bs, w, nin, sw, iv, uck, nop, outs] =>
+    match bool01? ap with
+    | none => (s, "bad-op")
+    | some ap =>
     match nat? mf, bool01? dev, filter? flt, nat? now, nat? ver, nat? bs, nat? w, nat? nin with
     | some mf, some dev, some flt, some now, some ver, some bs, some w, some nin =>
       match segwit? sw, mapM? nat? (splitList iv ","), mapM? uck? (splitList uck ","), nat? nop,
@@ -97,7 +102,7 @@ def step (s : St) (toks : List String) : St × String :=
         let (vc', res) := checkOnchain p s.vc now r
         match res with
         | .panic => ({ vc := vc', dead := true }, "panic")
-        | _ => ({ s with vc := vc' }, resStr res ++ " | " ++ vcDigest vc')
+        | _ => ({ s with vc := vc' }, resStr ap res ++ " | " ++ vcDigest vc')
       | _, _, _, _, _ => (s, "bad-op")
     | _, _, _, _, _, _, _, _ => (s, "bad-op")
   | _ => (s, "bad-op")
